@@ -357,7 +357,7 @@ def kernel_rate_limit(core):
     length of the sleep, and the order sleep -> emission"""
     fn = find_func(find_class(core, "rate_limit"), "update")
     sx = Straight("rate_limit.update", {"time()": "now", "self.next": "next", "self.interval": "interval"},
-                  calls=("self._retain_refs", "gen.sleep", "self._emit", "self._release_refs", "self._leave_in_turn"))
+                  calls=("self._retain_refs", "gen.sleep", "self._emit", "self._release_refs", "self._wait_for_turn", "self._leave"))
     sx.run(body_src(fn))
     sleep = sx.the("call", "gen.sleep", "gen.sleep(...)")
     emit = sx.the("call", "self._emit", "self._emit(...)")
@@ -367,9 +367,15 @@ def kernel_rate_limit(core):
         raise KernelError("rate_limit.update: the emission must be unconditional and come after the (conditional) sleep")
     # (the queueing behind earlier arrivals, _take_turn / _leave_in_turn, is not arithmetic: it must sit between the
     #  slot's sleep and the emission, unconditionally)
-    turn = [e for e in sx.events if e.kind == "call" and e.func == "self._leave_in_turn"]
-    if turn and (len(turn) != 1 or turn[0].pc or not (sx.events.index(sleep) < sx.events.index(turn[0]) < sx.events.index(emit))):
-        raise KernelError("rate_limit.update: _leave_in_turn must be called once, unconditionally, between the sleep and the emission")
+    turn = [e for e in sx.events if e.kind == "call" and e.func == "self._wait_for_turn"]
+    leave = [e for e in sx.events if e.kind == "call" and e.func == "self._leave"]
+    if turn or leave:
+        if len(turn) != 1 or turn[0].pc or not (sx.events.index(sleep) < sx.events.index(turn[0]) < sx.events.index(emit)):
+            raise KernelError("rate_limit.update: _wait_for_turn must be called once, unconditionally, between the sleep and the emission")
+        # the departure is noted (and the next element let go) in the same breath as the hand-over: nothing but the call
+        # of _leave may stand between the wait and the emission
+        if len(leave) != 1 or leave[0].pc or sx.events.index(leave[0]) != sx.events.index(turn[0]) + 1 or sx.events.index(emit) != sx.events.index(leave[0]) + 1:
+            raise KernelError("rate_limit.update: _leave must be called once, unconditionally, directly between _wait_for_turn and the emission")
     if sleep.guard() == "true":
         raise KernelError("rate_limit.update: the sleep is unconditional")
     return ("(* streamz/core.py rate_limit.update *)\n"
